@@ -1763,6 +1763,10 @@ class Cluster(object):
                 self._is_setup = True
 
         session = self._new_session(keyspace)
+        if self.is_shutdown:
+            # shutdown() ran while the session was being created and may not have seen it
+            session.shutdown()
+            raise DriverException("Cluster is already shut down")
         if wait_for_all_pools:
             wait_futures(session._initial_connect_futures)
 
